@@ -113,10 +113,8 @@ def rewrite_casts(body, fired):
 
 LOOP_RE = re.compile(r'\b(for|while)\s*\(')
 
-def insert_loop_contracts(body, loops, fired, name):
-    if not loops: return body
-    # find loop headers in order; `do {} while(...)` trailing while is skipped by checking the char after ')'
-    pos = 0; ordinal = 0; out = []; last = 0
+def loop_heads(body):
+    """[(index of closing paren of the header, normalised header text)] for every for/while loop of the body, in textual order."""
     heads = []
     for m in LOOP_RE.finditer(body):
         p = m.end() - 1
@@ -126,14 +124,40 @@ def insert_loop_contracts(body, loops, fired, name):
         while r < len(body) and body[r].isspace(): r += 1
         if m.group(1) == 'while' and r < len(body) and body[r] == ';':
             continue
-        heads.append(q)
-    for ordinal, q in enumerate(heads):
-        if ordinal in loops:
-            out.append(body[last:q+1]); out.append('\n' + loops[ordinal] + '\n'); last = q + 1
-            fired['R-loop'] = fired.get('R-loop', 0) + 1
-    for o in loops:
-        if o >= len(heads):
-            raise SliceError('%s: loop ordinal %d not found (function has %d loops)' % (name, o, len(heads)))
+        heads.append((q, re.sub(r'\s+', ' ', body[m.start():q + 1]).strip()))
+    return heads
+
+_FROZEN_HEADS = None
+def frozen_heads():
+    global _FROZEN_HEADS
+    if _FROZEN_HEADS is None:
+        import json
+        p = os.path.join(os.path.dirname(os.path.dirname(os.path.abspath(__file__))), 'spec', 'loop_headers.json')
+        _FROZEN_HEADS = json.load(open(p)) if os.path.exists(p) else {}
+    return _FROZEN_HEADS
+
+def insert_loop_contracts(body, loops, fired, name):
+    """R-loop.  A loop contract is written for the k-th loop of the function AS IT WAS WHEN THE CONTRACT WAS WRITTEN; spec/loop_headers.json freezes
+    the header text of that loop.  The contract is attached to the loop that still has this header (same rank among equal headers), wherever it
+    now sits; if no loop has it, the function changed shape and the slice is refused (exit 2) rather than attaching an invariant to another loop."""
+    if not loops: return body
+    heads = loop_heads(body)
+    frozen = frozen_heads().get(name)
+    target = {}
+    for o in sorted(loops):
+        if frozen is None or str(o) not in frozen:
+            if o >= len(heads): raise SliceError('%s: loop ordinal %d not found (function has %d loops)' % (name, o, len(heads)))
+            target[o] = o; continue
+        want = frozen[str(o)]
+        rank = sum(1 for k in range(o) if frozen.get(str(k)) == want) if all(str(k) in frozen for k in range(o)) else 0
+        same = [i for i, (_, h) in enumerate(heads) if h == want]
+        if len(same) <= rank: raise SliceError('%s: the loop `%s` that carries loop contract %d is no longer in the function (needs a new contract; not a violation)' % (name, want[:80], o))
+        target[o] = same[rank]
+    out = []; last = 0
+    for o in sorted(loops, key=lambda k: target[k]):
+        q = heads[target[o]][0]
+        out.append(body[last:q+1]); out.append('\n' + loops[o] + '\n'); last = q + 1
+        fired['R-loop'] = fired.get('R-loop', 0) + 1
     out.append(body[last:])
     return ''.join(out)
 
@@ -222,6 +246,25 @@ def slice_function(root, spec):
         body, k = re.subn(r'\b%s\b' % re.escape(tp), ty, body)
         fired['R-tmpl:' + tp] = k
     body = re.sub(r'\btypename\s+', '', body)
+    # R-trait: type traits on concrete types (after R-tmpl has bound the template parameters), evaluated by the slicer
+    UNS = {'int8_t': 'uint8_t', 'int16_t': 'uint16_t', 'int32_t': 'uint32_t', 'int64_t': 'uint64_t', 'int': 'unsigned int', 'long': 'unsigned long', 'char': 'unsigned char', 'short': 'unsigned short',
+           'uint8_t': 'uint8_t', 'uint16_t': 'uint16_t', 'uint32_t': 'uint32_t', 'uint64_t': 'uint64_t'}
+    SGN = {'uint8_t': 'int8_t', 'uint16_t': 'int16_t', 'uint32_t': 'int32_t', 'uint64_t': 'int64_t', 'unsigned': 'int', 'int8_t': 'int8_t', 'int16_t': 'int16_t', 'int32_t': 'int32_t', 'int64_t': 'int64_t'}
+    def tr(table, label):
+        def f(mm):
+            t = mm.group(1)
+            if t not in table: raise SliceError('%s: %s<%s> not in the trait table' % (spec['name'], label, t))
+            fired['R-trait.' + label] = fired.get('R-trait.' + label, 0) + 1
+            return table[t]
+        return f
+    body = re.sub(r'std::make_unsigned<\s*([\w ]+?)\s*>::type', tr(UNS, 'make_unsigned'), body)
+    body = re.sub(r'std::make_signed<\s*([\w ]+?)\s*>::type', tr(SGN, 'make_signed'), body)
+    ISU = {t: ('1' if t.startswith('u') else '0') for t in list(UNS) + ['float', 'double']}
+    ISI = {t: ('0' if t in ('float', 'double') else '1') for t in list(UNS) + ['float', 'double']}
+    body = re.sub(r'std::is_unsigned<\s*([\w ]+?)\s*>::value', tr(ISU, 'is_unsigned'), body)
+    body = re.sub(r'std::is_signed<\s*([\w ]+?)\s*>::value', tr({k: ('0' if v == '1' else '1') for k, v in ISU.items()}, 'is_signed'), body)
+    body = re.sub(r'std::is_integral<\s*([\w ]+?)\s*>::value', tr(ISI, 'is_integral'), body)
+    body = re.sub(r'std::is_floating_point<\s*([\w ]+?)\s*>::value', tr({k: ('0' if v == '1' else '1') for k, v in ISI.items()}, 'is_floating_point'), body)
     # R-trait: std::numeric_limits<T>::f() -> <limits.h>/<float.h> constants (evaluated by the slicer, checked by co-simulation)
     NL = {('float', 'max'): 'FLT_MAX', ('float', 'min'): 'FLT_MIN', ('float', 'lowest'): '(-FLT_MAX)', ('float', 'epsilon'): 'FLT_EPSILON',
           ('double', 'max'): 'DBL_MAX', ('double', 'min'): 'DBL_MIN', ('double', 'lowest'): '(-DBL_MAX)', ('double', 'epsilon'): 'DBL_EPSILON',
@@ -250,6 +293,7 @@ def slice_function(root, spec):
         body, k = re.subn(r'(?<![\w>.])(?:this->)?%s\b' % re.escape(mem), 'self->' + mem, body)
         fired['R-self:' + mem] = k
     # R-loop
+    spec['_heads'] = [h for _, h in loop_heads(body)]
     body = insert_loop_contracts(body, spec.get('loops', {}), fired, spec['name'])
     for pat, msg in LEFTOVER:
         mm = re.search(pat, body)
@@ -286,6 +330,13 @@ def slice_constant(root, spec):
         raise SliceError('constant %s: regex matched %d times (%d distinct)' % (spec['const'], len(ms), len(set(ms))))
     val = ms[0].strip()
     val = re.sub(r'\bstatic_cast<(\w+)>\(', r'(\1)(', val)
+    if spec.get('resolve_alias'):
+        # a captured type name that is a typedef / using alias declared in the same file is replaced by the aliased type (one or two levels)
+        for _ in range(2):
+            am = re.search(r'\btypedef\s+([\w ]+?)\s+%s\s*;' % re.escape(val), text) or re.search(r'\busing\s+%s\s*=\s*([\w ]+?)\s*;' % re.escape(val), text)
+            if not am: break
+            val = am.group(1).strip()
+    if spec.get('noparen'): return '#define %s %s\n' % (spec['const'], val)
     return '#define %s (%s)\n' % (spec['const'], val)
 
 def slice_raw(root, spec):
@@ -312,6 +363,24 @@ def generate(root, unit):
         tparts.append(slice_constant(root, c))
     for r in unit.get('raw', []):
         tparts.append(slice_raw(root, r))
+    # R-alias: `typedef T A;` / `using A = T;` with T a fixed-width arithmetic type, declared in a file a slice is taken from, are copied as C typedefs
+    # (so that a refactoring that names a type keeps slicing); aliases of anything else are left alone
+    BUILTIN = r'(?:u?int(?:8|16|32|64)_t|size_t|float|double|bool|char|int|unsigned|unsigned int|long|unsigned long)'
+    seen_alias = {}
+    for fpath in sorted({f['file'] for f in unit['functions']} | {st['file'] for st in unit.get('structs', [])}):
+        full = os.path.join(root, fpath)
+        if not os.path.exists(full): continue
+        ftext = strip_comments(open(full).read())
+        for am in list(re.finditer(r'\btypedef\s+(%s)\s+(\w+)\s*;' % BUILTIN, ftext)) + [None]:
+            if am is None: break
+            seen_alias.setdefault(am.group(2), am.group(1))
+        for am in re.finditer(r'\busing\s+(\w+)\s*=\s*(%s)\s*;' % BUILTIN, ftext):
+            seen_alias.setdefault(am.group(1), am.group(2))
+    for a_name, a_type in sorted(seen_alias.items()):
+        if a_name in unit.get('no_alias', []) or re.match(BUILTIN + '$', a_name): continue
+        tparts.append('#ifndef ALIAS_%s\n#define ALIAS_%s\ntypedef %s %s;  /* R-alias */\n#endif\n' % (a_name, a_name, a_type, a_name))
+    for pre in unit.get('pre_struct_text', []):
+        tparts.append(pre + '\n')
     for s in unit.get('structs', []):
         tparts.append(slice_struct(root, s))
     for pre in unit.get('pre_text', []):
